@@ -1124,7 +1124,100 @@ impl Scenario for C20 {
                 return cx.verdict();
             }
         }
+        // A port made of two halves (a TX/RX pair): it implements `SerialPort` itself and hands every
+        // configuration request to both halves, so the setup closure runs once per half. The port is
+        // at 19200 8N1 only if both halves are.
+        if fail == CfgFail::None && entry < 2 && cx.chance(1, 4) {
+            cx.probe("port_of_two_halves_configured");
+            let mut d1 = Device::new(prior);
+            d1.timeout = prior_timeout;
+            let other = SimSettings { baud: BaudRate2(BAUDS[cx.draw(11) as usize]), char_size: cx.draw(4) as u8, parity: cx.draw(3) as u8, stop_bits: cx.draw(2) as u8, flow: cx.draw(3) as u8, fail_set_baud: false, fail_kind: 0, baud_unreported: false, unreported: 0 };
+            let mut d2 = Device::new(other);
+            d2.timeout = Duration::from_millis(3);
+            let mut pair = PairPort { tx: SimPort::new(ScriptWire::new(cx, SimClock::default(), vec![]), d1), rx: SimPort::new(ScriptWire::new(cx, SimClock::default(), vec![]), d2) };
+            let halves: Option<(Device, Device)> = if entry == 0 {
+                flipdot_serial::configure_port(&mut pair, caller_timeout).ok().map(|_| (pair.tx.dev.clone(), pair.rx.dev.clone()))
+            } else {
+                SerialSignBus::try_new(pair).ok().map(|b| (b.port().tx.dev.clone(), b.port().rx.dev.clone()))
+            };
+            match halves {
+                None => {
+                    cx.fail("C20/setup-failed-without-fault", format!("entry {entry}: a port of two halves, no configuration call failed, yet an error was returned"));
+                    return cx.verdict();
+                }
+                Some((t, r)) => {
+                    for (which, d) in [("transmit", &t), ("receive", &r)] {
+                        if !d.settings.is_19200_8n1_noflow() {
+                            cx.fail("C20/wrong-settings", format!("entry {entry}: port of two halves: the {which} half ended at {:?}; wanted 19200 baud, 8 bits, no parity, 1 stop bit, no flow control", d.settings));
+                            return cx.verdict();
+                        }
+                        if d.timeout != want_timeout {
+                            cx.fail("C20/wrong-timeout", format!("entry {entry}: port of two halves: the {which} half has read timeout {:?}, wanted {:?}", d.timeout, want_timeout));
+                            return cx.verdict();
+                        }
+                    }
+                }
+            }
+        }
         cx.verdict()
+    }
+}
+
+/// A port of two halves that implements `SerialPort` itself (not through serial-core's blanket impl
+/// for devices): every configuration request goes to both halves.
+struct PairPort {
+    tx: Port,
+    rx: Port,
+}
+
+impl std::io::Read for PairPort {
+    fn read(&mut self, buf: &mut [u8]) -> std::io::Result<usize> {
+        self.rx.read(buf)
+    }
+}
+
+impl std::io::Write for PairPort {
+    fn write(&mut self, buf: &[u8]) -> std::io::Result<usize> {
+        self.tx.write(buf)
+    }
+    fn flush(&mut self) -> std::io::Result<()> {
+        Ok(())
+    }
+}
+
+impl serial_core::SerialPort for PairPort {
+    fn timeout(&self) -> Duration {
+        serial_core::SerialPort::timeout(&self.rx)
+    }
+    fn set_timeout(&mut self, t: Duration) -> serial_core::Result<()> {
+        serial_core::SerialPort::set_timeout(&mut self.tx, t)?;
+        serial_core::SerialPort::set_timeout(&mut self.rx, t)
+    }
+    fn configure(&mut self, s: &serial_core::PortSettings) -> serial_core::Result<()> {
+        serial_core::SerialPort::configure(&mut self.tx, s)?;
+        serial_core::SerialPort::configure(&mut self.rx, s)
+    }
+    fn reconfigure(&mut self, setup: &dyn Fn(&mut dyn serial_core::SerialPortSettings) -> serial_core::Result<()>) -> serial_core::Result<()> {
+        serial_core::SerialPort::reconfigure(&mut self.tx, setup)?;
+        serial_core::SerialPort::reconfigure(&mut self.rx, setup)
+    }
+    fn set_rts(&mut self, _: bool) -> serial_core::Result<()> {
+        Ok(())
+    }
+    fn set_dtr(&mut self, _: bool) -> serial_core::Result<()> {
+        Ok(())
+    }
+    fn read_cts(&mut self) -> serial_core::Result<bool> {
+        Ok(true)
+    }
+    fn read_dsr(&mut self) -> serial_core::Result<bool> {
+        Ok(true)
+    }
+    fn read_ri(&mut self) -> serial_core::Result<bool> {
+        Ok(false)
+    }
+    fn read_cd(&mut self) -> serial_core::Result<bool> {
+        Ok(true)
     }
 }
 
